@@ -66,8 +66,9 @@ type consts struct {
 // frame is a piece of recorded ciphertext: one AEAD-sealed unit (or the whole first header).
 type frame struct {
 	b   []byte
-	ses string // "V", "X", "J"
-	id  int    // 1-based index in its genuine stream
+	ses string       // "V", "X", "J"
+	id  int          // 1-based index in its genuine stream
+	fl  map[int]byte // bits already flipped per byte offset: a second Flip of the same byte takes another bit, never undoing the first
 }
 
 // recording is one genuine session in the attacked direction.
@@ -303,8 +304,17 @@ func (e *env) apply(ops []action, v *recording, x *recording, choice map[int]int
 				off = lo + e.rnd.IntN(hi-lo)
 			}
 			b := bytes.Clone(w[a.I-1].b)
-			b[off] ^= 1 << uint(e.rnd.IntN(8))
-			w[a.I-1] = frame{b: b, ses: "J"}
+			fl := map[int]byte{}
+			for o, m := range w[a.I-1].fl {
+				fl[o] = m
+			}
+			bit := byte(1) << uint(e.rnd.IntN(8))
+			for fl[off]&bit != 0 && fl[off] != 0xff {
+				bit = bit<<1 | bit>>7
+			}
+			fl[off] |= bit
+			b[off] ^= bit
+			w[a.I-1] = frame{b: b, ses: "J", fl: fl}
 			*desc += fmt.Sprintf("flip a bit of byte %d of frame %d; ", off, a.I)
 		case "Cut":
 			if a.I < 1 || a.I > len(w) {
